@@ -58,6 +58,7 @@ def run(ctx):
     r17(ctx)
     r18(ctx)
     r19(ctx)
+    r_restart(ctx)
 
 
 # ---------------------------------------------------------------------------- R1.1
@@ -505,10 +506,22 @@ CLAIM = {
             "writer reachable only from revoke/activate; next_holder_commit_info is stored only after Ok of the "
             "validator and of check_holder_tx_signatures and only for n == next; the signature check verifies "
             "commitment and every HTLC against the recomposed transaction with the counterparty's keys; handler "
-            "replies carry only secrets from those paths. Does NOT decide LDK's derivation arithmetic, u64 "
-            "wrap-around, or the restart clause (see C11).",
+            "replies carry only secrets from those paths. (R1.10/R1.11) restart clause: every acknowledged change of the channel's enforcement state is persisted before the success return and every persisted field is restored into the same slot, the restored EnforcementState installed unmodified (same obligations as C11 R11.1 for the channel class and C11 R11.2). Does NOT decide LDK's derivation arithmetic, u64 "
+            "wrap-around.",
     "note": "non-permissive policy (policy_error returns Err); rustc MIR construction; LDK/secp256k1 semantics by "
             "name; one live object per typed access path within a function; test utilities (feature test_utils) "
             "listed by name and shown unreachable from shipping code",
     "technique": "static analysis: MIR who-may-call/write + must-pass-through + guard-scenario entailment + provenance slices",
 }
+
+
+def r_restart(ctx):
+    """the restart clause of the statement ("with a signer restart allowed between any two requests"): the channel's
+    enforcement state the rules above reason about is, at every acknowledged request, the state a restarted signer has.
+    Same obligations as C11 R11.1 (persist-before-acknowledge, channel class) and C11 R11.2 (persist / restore field
+    agreement, restored EnforcementState installed unmodified), evaluated here because this property depends on them."""
+    from rules import C11 as _c11
+    from engine import report as _report
+    v = _report.renamed(ctx, {"R11.1": "R1.10", "R11.2": "R1.11"})
+    _c11.r111(v, classes={"channel"})
+    _c11.r112(v)
